@@ -14,6 +14,35 @@ BASELINE_OFF = (
 
 # id -> (level, technique, level text, level note, design ref)
 T = {
+    "C14": (
+        "exploration",
+        "exhaustive enumeration of explicit signal/parameter/label-map alphabets through the real models, closed-form references (exact rational arithmetic for the polynomial space)",
+        "Signals over a 6-level alphabet in every supported form (lists, 2-D, RGB arrays, Images); all bound pairs, scalings/offsets, every subset of updatable "
+        "parameters; all 39 sequences of length <= 3 of {clip, scaling, linear} with every (position, subset) dof list; all 122 set partitions of a 2x3 grid into <= 3 labels "
+        "(thorough all 203) plus 4/5-label stripes for the label-wise models; threshold ladders x masks; every well-conditioned 1..4-subset of a support pool x 4 kernels "
+        "for kernel interpolation (reproduction, accelerated vs plain sum, updates); degrees 0..4 of the polynomial space with exact Fraction rank / column-space equality.",
+        "Trusted: closed-form references in props/c14.py; float32 kernel evaluations compared at 1e-4(1+sum|w|); support sets with condition number > 100 excluded a priori (statement: well-conditioned).",
+        "DESIGN.md §3 C14",
+    ),
+    "C16": (
+        "model_checking",
+        "explicit-state BFS over live solver objects and module-level default instances (full-content hashing, fixpoint or depth 4) + all un-deduplicated call sequences; oracle = each call executed first in a fresh interpreter",
+        "State = the harness's solver objects plus every module-level default instance reachable through __defaults__ of the anchored modules. Per group of objects that can "
+        "share state (Jacobi, MG, heterogeneous MG, H1 with default/explicit solver, split-Bregman TVD, Anderson, 9 Wasserstein objects, a cross world) the search applies every "
+        "parameterised call in every reachable state (de-duplicated to depth 4 / fixpoint, thorough 6) and all sequences of length <= 2 (thorough 3); every return value must be "
+        "bit-identical (1e-12 for AMG) to the table entry computed by the same call issued first in its own process.",
+        "Trusted: mc.canon.digest for state identity; table rows computed in forks of a pristine zygote interpreter, cross-validated at every run against genuinely new interpreters (17 rows quick, all rows thorough). Thread counts pinned to 1.",
+        "DESIGN.md §3 C16",
+    ),
+    "C19": (
+        "exploration",
+        "exhaustive enumeration of image shapes x patch counts x overlaps x frames through the real Patches class, integer cover array and own affine map as reference",
+        "Every 2-D shape with extents 1..12 (extents 13..40 along lines/diagonal in quick, every shape up to 40x40 in thorough) x all 36 patch-count pairs x overlaps "
+        "{0,0.1,0.25,0.5} x scalar/colour payloads x four physical frames; per configuration: interiors cover every voxel exactly once, re-assembly reproduces the image, each patch "
+        "equals the sub-image at its advertised voxel corners, corners/centres in voxel and metric units agree under the base coordinate system, centres lie in their box.",
+        "Trusted: the affine voxel->coordinate model of props/c19.py (C01). Non-dyadic frames compared at 1e-9 relative.",
+        "DESIGN.md §3 C19",
+    ),
     "C12": (
         "exploration",
         "exhaustive enumeration of swatch sets x ground-truth maps x balance classes x every ordered pair/triple of staged modes on the real balances, stage balances re-fitted independently",
